@@ -104,6 +104,7 @@ type RespPlan struct {
 	Park        bool  // the handler parks until the drain phase (not offered to the controller during Run)
 	Trailer     [][2]string
 	LateTrailer [][2]string // trailers the handler did not announce in the Trailer header (sent with http.TrailerPrefix)
+	Early       [][2]string // header fields of a 103 (Early Hints) informational response sent before the final one
 	NoCL        bool
 }
 
@@ -682,6 +683,23 @@ func (w *World) backendHandler(rw http.ResponseWriter, r *http.Request) {
 	st := rp.Status
 	if st == 0 {
 		st = 200
+	}
+	if len(rp.Early) > 0 {
+		// an informational response first: its fields are sent with it and taken back out
+		saved := h.Clone()
+		for k := range h {
+			h.Del(k)
+		}
+		for _, kv := range rp.Early {
+			h.Add(kv[0], kv[1])
+		}
+		rw.WriteHeader(http.StatusEarlyHints)
+		for k := range h {
+			h.Del(k)
+		}
+		for k, vv := range saved {
+			h[k] = vv
+		}
 	}
 	rw.WriteHeader(st)
 	if rp.Chunks == nil {
